@@ -448,6 +448,11 @@ func (x *Exec) runRoot(prereg []preregKey) (err error) {
 	a.spec = x.rootSpec
 	// parameters
 	for _, p := range fn.Params {
+		if sl, ok := x.slotParam(p); ok {
+			a.vals[p] = sl
+			a.params[p.Name()] = sl
+			continue
+		}
 		v := c.freshVal("p_"+p.Name(), p.Type())
 		c.Assume(x.typeInv(v, x.alloc0))
 		a.vals[p] = v
@@ -537,6 +542,30 @@ func (x *Exec) evalFrame(spec *FuncSpec, env *Env) *FrameSpec {
 			for _, kr := range x.fieldKeys(n, m.Field) {
 				ref := add(obj.S, kr.off)
 				fr.fields[kr.key] = append(fr.fields[kr.key], func(r string) string { return eq(r, ref) })
+			}
+		case "deref":
+			v := env.eval(m.X)
+			if v.K != KLoc {
+				efail("modifies %s: not an address", m.Text)
+			}
+			l := v.Loc
+			addF := func(owner *types.Named, fidx int, ref, cond string) {
+				f := owner.Underlying().(*types.Struct).Field(fidx)
+				for _, kr := range x.fieldKeys(owner, f.Name()) {
+					rr := add(ref, kr.off)
+					fr.fields[kr.key] = append(fr.fields[kr.key], func(r string) string { return and(cond, eq(r, rr)) })
+				}
+			}
+			switch l.K {
+			case LField:
+				addF(l.Owner, l.Path[0], l.Ref, "true")
+			case LFieldElem:
+				addF(l.Owner, l.Path[0], l.Ref, "true")
+			case LSlot:
+				addF(l.TreeOwner, l.RootPath, l.Ref, l.IsRoot)
+				addF(l.Owner, l.Path[0], l.NodeRef, not(l.IsRoot))
+			default:
+				efail("modifies %s: unsupported address", m.Text)
 			}
 		case "elems":
 			v := env.eval(m.X)
@@ -1190,6 +1219,81 @@ func (x *Exec) zeroGhosts(st *State, n *types.Named, ref string) {
 	}
 }
 
+// slotParam: a parameter of type **N where N is a struct with an array-of-*N field (child slots) in a package that has a
+// struct with a field Root of type *N is modelled as a symbolic slot: the address of some tree's Root or of some node's
+// child slot (the only two addresses the library ever passes).
+func (x *Exec) slotParam(p *ssa.Parameter) (Val, bool) {
+	pt, ok := types.Unalias(p.Type()).(*types.Pointer)
+	if !ok {
+		return Val{}, false
+	}
+	pt2, ok := types.Unalias(pt.Elem()).(*types.Pointer)
+	if !ok {
+		return Val{}, false
+	}
+	n := namedStruct(pt.Elem())
+	if n == nil {
+		return Val{}, false
+	}
+	_ = pt2
+	stt := n.Underlying().(*types.Struct)
+	arrIdx := -1
+	for i := 0; i < stt.NumFields(); i++ {
+		if at, ok := stt.Field(i).Type().Underlying().(*types.Array); ok {
+			if namedStruct(at.Elem()) != nil && originKey(namedStruct(at.Elem())) == originKey(n) {
+				arrIdx = i
+			}
+		}
+	}
+	if arrIdx < 0 || n.Obj().Pkg() == nil {
+		return Val{}, false
+	}
+	var treeT *types.Named
+	rootIdx := -1
+	scope := n.Obj().Pkg().Scope()
+	for _, nm := range scope.Names() {
+		tn, ok := scope.Lookup(nm).(*types.TypeName)
+		if !ok {
+			continue
+		}
+		cand, ok := tn.Type().(*types.Named)
+		if !ok {
+			continue
+		}
+		cs, ok := cand.Underlying().(*types.Struct)
+		if !ok {
+			continue
+		}
+		for i := 0; i < cs.NumFields(); i++ {
+			if cs.Field(i).Name() == "Root" {
+				if rn := namedStruct(cs.Field(i).Type()); rn != nil && originKey(rn) == originKey(n) {
+					treeT, rootIdx = cand, i
+				}
+			}
+		}
+	}
+	if treeT == nil {
+		return Val{}, false
+	}
+	// instantiate the tree type with the node's type arguments
+	if n.TypeArgs() != nil && treeT.TypeParams() != nil && treeT.TypeParams().Len() == n.TypeArgs().Len() {
+		var targs []types.Type
+		for i := 0; i < n.TypeArgs().Len(); i++ {
+			targs = append(targs, n.TypeArgs().At(i))
+		}
+		if inst, err := types.Instantiate(nil, treeT, targs, false); err == nil {
+			treeT = inst.(*types.Named)
+		}
+	}
+	c := x.ctx
+	name := "p_" + p.Name()
+	l := &Loc{K: LSlot, Owner: n, Path: []int{arrIdx}, T: pt.Elem(), TreeOwner: treeT, RootPath: rootIdx,
+		IsRoot: c.Fresh(name+".isroot", "Bool"), Ref: c.Fresh(name+".tree", "Int"), NodeRef: c.Fresh(name+".node", "Int"), Idx: c.Fresh(name+".idx", "Int")}
+	at := stt.Field(arrIdx).Type().Underlying().(*types.Array)
+	c.Assume(and(app("<=", "0", l.Idx), app("<", l.Idx, fmt.Sprint(at.Len())), app("<", "0", l.Ref), app("<=", l.Ref, x.alloc0), app("<", "0", l.NodeRef), app("<=", l.NodeRef, x.alloc0)))
+	return Val{K: KLoc, T: p.Type(), Loc: l}, true
+}
+
 func (a *Activation) load(p Val, st *State, rc string, pos token.Pos) Val {
 	x := a.x
 	switch p.K {
@@ -1203,6 +1307,10 @@ func (a *Activation) load(p Val, st *State, rc string, pos token.Pos) Val {
 		case LFieldElem:
 			arrv := x.loadField(st, l.Owner, l.Ref, l.Path[0])
 			return scalar(l.T, sel(arrv.S, l.Idx))
+		case LSlot:
+			rootv := x.loadField(st, l.TreeOwner, l.Ref, l.RootPath)
+			arrv := x.loadField(st, l.Owner, l.NodeRef, l.Path[0])
+			return scalar(l.T, ite(l.IsRoot, rootv.S, sel(arrv.S, l.Idx)))
 		case LLocal:
 			v, ok := st.locals[l.Local]
 			if !ok {
@@ -1264,6 +1372,25 @@ func (a *Activation) store(ins ssa.Instruction, p Val, v Val, st *State, rc stri
 			nv := arrv
 			nv.S = c.Define("arrupd", c.sortOf(arrv.T), store(arrv.S, l.Idx, v.S))
 			x.storeField(st, l.Owner, l.Ref, l.Path[0], nv)
+			return
+		case LSlot:
+			rf := l.TreeOwner.Underlying().(*types.Struct).Field(l.RootPath)
+			for _, kr := range x.fieldKeys(l.TreeOwner, rf.Name()) {
+				a.frameFieldIf(kr.key, add(l.Ref, kr.off), l.IsRoot, st, rc, pos)
+				break
+			}
+			cf := l.Owner.Underlying().(*types.Struct).Field(l.Path[0])
+			for _, kr := range x.fieldKeys(l.Owner, cf.Name()) {
+				a.frameFieldIf(kr.key, l.NodeRef, not(l.IsRoot), st, rc, pos)
+			}
+			oldRoot := x.loadField(st, l.TreeOwner, l.Ref, l.RootPath)
+			nr := oldRoot
+			nr.S = c.Define("slotroot", c.sortOf(oldRoot.T), ite(l.IsRoot, v.S, oldRoot.S))
+			x.storeField(st, l.TreeOwner, l.Ref, l.RootPath, nr)
+			arrv := x.loadField(st, l.Owner, l.NodeRef, l.Path[0])
+			nv := arrv
+			nv.S = c.Define("slotupd", c.sortOf(arrv.T), ite(l.IsRoot, arrv.S, store(arrv.S, l.Idx, v.S)))
+			x.storeField(st, l.Owner, l.NodeRef, l.Path[0], nv)
 			return
 		case LLocal:
 			st.locals[l.Local] = v
